@@ -184,6 +184,10 @@ def convert_version(
 
     if model_proto is not None:
         # Update the model proto in-place
+        converted_proto = ir.to_proto(model)
         model_proto.graph.Clear()
         del model_proto.functions[:]
-        model_proto.graph.CopyFrom(ir.to_proto(model.graph))
+        model_proto.graph.CopyFrom(converted_proto.graph)
+        # The declared opset must follow the converted nodes.
+        del model_proto.opset_import[:]
+        model_proto.opset_import.extend(converted_proto.opset_import)
